@@ -263,6 +263,17 @@ impl UploadClient for SimStore {
     }
 
     async fn exists(&self, prefix: &str, hash: &MerkleHash) -> CResult<bool> {
+        // the shipped session never asks; a version that does gets the same gates and faults as the other calls
+        let dry = self.st.lock().unwrap().dry;
+        if dry {
+            return self.inner.exists(prefix, hash).await;
+        }
+        let (_idx, fault) = self.gate("exists").await;
+        if fault.is_some() {
+            let mut st = self.st.lock().unwrap();
+            *st.faults_fired.entry("exists:fail".into()).or_insert(0) += 1;
+            return Err(injected());
+        }
         self.inner.exists(prefix, hash).await
     }
 }
